@@ -279,8 +279,20 @@ impl<'ast, 'res> Resolver<'ast, 'res> {
                 self.check_expr(expr);
                 self.set_stmt_expr_class(self.classify_expr(expr));
             }
-            Stmt::AssignIndex { target, expr, .. } => {
+            Stmt::AssignIndex { target, expr, span } => {
                 self.check_assign_index(target, expr);
+                if !Self::is_variable_rooted(target) {
+                    self.emit_error(
+                        *span,
+                        SemanticError::TypeMismatch,
+                        vec![Label {
+                            span: *span,
+                            message: ArenaCow::Borrowed(
+                                "Dis assignment target no start from variable",
+                            ),
+                        }],
+                    );
+                }
                 self.set_stmt_expr_class(ExprClass::Impure);
             }
             // Handle "if to say(condition) start...end" with optional "if not so"
@@ -411,6 +423,18 @@ impl<'ast, 'res> Resolver<'ast, 'res> {
     fn set_stmt_expr_class(&mut self, class: ExprClass) {
         if let Some(stmt) = self.current_stmt {
             self.facts.join_stmt_expr_class(stmt, class);
+        }
+    }
+
+    /// Whether an index / member chain starts at a variable (declared or not), i.e. denotes a
+    /// storage location rather than a temporary value.
+    fn is_variable_rooted(mut expr: ExprRef<'ast>) -> bool {
+        loop {
+            match expr {
+                Expr::Var(..) => return true,
+                Expr::Index { array, .. } | Expr::Member { object: array, .. } => expr = array,
+                _ => return false,
+            }
         }
     }
 
@@ -928,9 +952,18 @@ impl<'ast, 'res> Resolver<'ast, 'res> {
                     }
                 }
             }
-            Expr::Member { object, .. } => {
-                // We don't track precise receiver types, so validation is deferred to runtime
+            Expr::Member { object, span, .. } => {
                 self.check_expr(object);
+                // Values have methods but no properties: a member access that is not being
+                // called has no meaning at run time.
+                self.emit_error(
+                    *span,
+                    SemanticError::TypeMismatch,
+                    vec![Label {
+                        span: *span,
+                        message: ArenaCow::Borrowed("Dis member access no be method call"),
+                    }],
+                );
             }
             Expr::Call { callee, args, span } => {
                 // Check the callee expression
@@ -1075,9 +1108,20 @@ impl<'ast, 'res> Resolver<'ast, 'res> {
                                 match builtin {
                                     MemberBuiltin::ProcessCommand(ProcessCommandBuiltin::Cwd)
                                     | MemberBuiltin::Array(ArrayBuiltin::Join)
-                                        if !args.args.is_empty() =>
-                                    {
+                                    | MemberBuiltin::String(
+                                        StringBuiltin::Find | StringBuiltin::Split,
+                                    ) if !args.args.is_empty() => {
                                         self.expect_member_string_arg(field, args.args[0], *span);
+                                    }
+                                    MemberBuiltin::String(StringBuiltin::Replace) => {
+                                        for arg in args.args.iter().take(2) {
+                                            self.expect_member_string_arg(field, arg, *span);
+                                        }
+                                    }
+                                    MemberBuiltin::String(StringBuiltin::Slice) => {
+                                        for arg in args.args.iter().take(2) {
+                                            self.expect_member_number_arg(field, arg, *span);
+                                        }
                                     }
                                     MemberBuiltin::ProcessCommand(ProcessCommandBuiltin::Env)
                                         if args.args.len() >= 2 =>
@@ -1109,7 +1153,18 @@ impl<'ast, 'res> Resolver<'ast, 'res> {
                             }
                         }
                     }
-                    _ => self.check_expr(callee),
+                    _ => {
+                        self.check_expr(callee);
+                        // Functions are not values: only a name or a method can be called
+                        self.emit_error(
+                            *span,
+                            SemanticError::TypeMismatch,
+                            vec![Label {
+                                span: *span,
+                                message: ArenaCow::Borrowed("Dis expression no be function"),
+                            }],
+                        );
+                    }
                 }
 
                 // Check all arguments
